@@ -925,6 +925,37 @@ def oracle(chk, case, o):
                 prev = prog[e[2] - 1][0] if e[2] > 0 else None
                 ok = (prev == "again") or (r[0] == "num" and prev == "send") or (r[0] == "data" and prev == "recv")
                 if not ok: return "stray-result | task %d step %d received %s after yielding %s" % (tid, e[2], r, prev)
+    # 4b. a task is resumed from a blocking operation only when that operation has completed, with the operation's own result
+    #     (Send: the byte count, all bytes unless it timed out or the descriptor is in error; Recv: data or None; Select: ready
+    #     subsets of what was asked or the timeout tuple; Sleep / n>0: the timeout tuple; 0: None)
+    xtab = case["x"]
+    for tid, evs in steps.items():
+        prog = tab[tid][0]
+        for _, e in evs:
+            if e[2] == 0 or e[2] > len(prog): continue
+            y = prog[e[2] - 1]; r = e[4]
+            if r is not None and r[0] == "exc": continue                     # only after `again` (checked above)
+            if y[0] == "send":
+                err = y[1] < len(xtab) and xtab[y[1]] is not None
+                ok = r is not None and r[0] == "num" and 0 <= r[1] <= y[2] and (r[1] == y[2] or y[3] is not None or err)
+                if not ok:
+                    return "send:wrong-result | task %d resumed from Send of %d bytes with %s" % (tid, y[2], r)
+            elif y[0] == "recv":
+                if not (r is None or r[0] == "data"):
+                    return "recv:wrong-result | task %d resumed from Recv with %s" % (tid, r)
+            elif y[0] == "select":
+                ok = r is not None and r[0] == "sel" and all(set(got) <= set(asked or []) for got, asked in zip(r[1:], y[1:4])) \
+                     and (r != TIMEOUT or y[4] is not None)
+                if not ok:
+                    return "select:wrong-result | task %d resumed from Select%s with %s" % (tid, y[1:], r)
+            elif (y[0] in ("sleep", "sleepabs") and y[1] is not None) or (y[0] == "num" and y[1] > 0):
+                if not (r == TIMEOUT or (r is None and y[0] != "num")):
+                    return "sleep:wrong-result | task %d resumed from %s with %s" % (tid, y, r)
+            elif y[0] in ("num", "cancel"):
+                if r is not None and tab[tid][1] is None:
+                    return "yield0:wrong-result | task %d resumed from %s with %s" % (tid, y, r)
+            elif y[0] in ("block", "exit") or y == ["sleep", None]:
+                return "resumed-from-block | task %d was resumed after %s" % (tid, y)
     # 5. timers
     for j, (delay, recurring, selfstop, false_at) in enumerate(case["timers"]):
         tt = ntop + j
